@@ -14,7 +14,15 @@ use crate::crdt::ts_json;
 
 type Model = BTreeMap<String, BTreeMap<u64, (HLCTimestamp, Option<Vec<u8>>)>>;
 
-const KS: [&str; 3] = ["alpha", "β-keyspace ü", "k 3/with space"];
+/// Keyspace names of a sequence: unicode / spaces / a slash; names that look like numbers (equal as numbers,
+/// different as text); names differing in case only. Chosen per sequence.
+const KS_SETS: [[&str; 3]; 3] = [["alpha", "β-keyspace ü", "k 3/with space"], ["7", "007", "7.0"], ["Users", "users", "1e2"]];
+thread_local! {
+    static KS_SET: std::cell::Cell<usize> = const { std::cell::Cell::new(0) };
+}
+fn ks_names() -> [&'static str; 3] {
+    KS_SETS[KS_SET.with(|c| c.get())]
+}
 const EDGE_IDS: [u64; 7] = [0, 1, 2, 1 << 31, (1 << 63) - 1, 1 << 63, u64::MAX];
 
 #[derive(Clone, Copy, PartialEq, Eq, Debug)]
@@ -76,11 +84,11 @@ async fn compare<S: Storage>(st: &S, m: &Model, ids: &BTreeSet<u64>, mentioned: 
     }
     for l in &list {
         // reads by this oracle count as "passing the name to a call"
-        if !mentioned.contains(l) && !KS.contains(&l.as_str()) {
+        if !mentioned.contains(l) && !ks_names().contains(&l.as_str()) {
             return Err(Fail { what: format!("never-used-keyspace-listed:after-{after}"), detail: json!({"keyspace": l}) });
         }
     }
-    for ks in KS {
+    for ks in ks_names() {
         if only.map_or(false, |o| o != ks) {
             continue;
         }
@@ -155,6 +163,7 @@ struct Driver {
     big_left: u32,
     big_items: u64,
     big_calls_with_repeated_ids: u64,
+    lookups_first: u64,
 }
 
 /// Batch sizes around the limits bulk implementations chunk at.
@@ -217,8 +226,31 @@ impl Driver {
     }
 
     async fn drive<S: Storage>(&mut self, st: &S, steps: usize) -> Result<(), Fail> {
+        // in half of the segments (a segment = one lifetime of the opened store) some keyspaces are first
+        // touched by a point lookup, before any write of this lifetime
+        if self.rng.gen_bool(0.5) {
+            for ks in ks_names() {
+                if self.rng.gen_bool(0.6) {
+                    self.mentioned.insert(ks.to_string());
+                    let id = self.gen_id();
+                    let want = self.model.get(ks).and_then(|m| m.get(&id)).and_then(|v| v.1.clone().map(|d| (v.0, d)));
+                    let got = if self.rng.gen_bool(0.5) {
+                        st.get(ks, id).await.map(|d| d.map(|d| (d.last_updated(), d.data().to_vec())))
+                    } else {
+                        st.multi_get(ks, [id].into_iter()).await.map(|mut it| it.next().map(|d| (d.last_updated(), d.data().to_vec())))
+                    };
+                    self.trace.push(json!({"lookup_first_in_this_lifetime": [ks, id]}));
+                    self.lookups_first += 1;
+                    match got {
+                        Ok(g) if g == want => {},
+                        Ok(g) => return Err(Fail { what: "get-differs:first-lookup-of-a-lifetime".into(), detail: json!({"keyspace": ks, "id": id, "got_len": g.map(|x| x.1.len()), "want_len": want.map(|x| x.1.len())}) }),
+                        Err(e) => return Err(Fail { what: "get-error".into(), detail: json!({"error": e.to_string()}) }),
+                    }
+                }
+            }
+        }
         for _ in 0..steps {
-            let ks = *KS.choose(&mut self.rng).unwrap();
+            let ks = *ks_names().choose(&mut self.rng).unwrap();
             self.mentioned.insert(ks.to_string());
             let op = self.rng.gen_range(0..12);
             let call;
@@ -357,6 +389,9 @@ fn scratch_root() -> PathBuf {
 
 async fn c17_sequence(backend: Backend, seed: u64, i: u64, root: &Path) -> CaseOut {
     let mut out = CaseOut::default();
+    // two sequences in five use the number-like / case-variant keyspace names
+    KS_SET.with(|c| c.set(match i % 5 { 1 => 1, 3 => 2, _ => 0 }));
+    out.counts.push((match i % 5 { 1 => "sequences_on_number_like_keyspace_names", 3 => "sequences_on_case_variant_keyspace_names", _ => "sequences_on_unicode_keyspace_names" }, 1));
     let mut d = Driver {
         rng: rng_for(seed, 0xC17 + backend as u64, i),
         model: Model::new(),
@@ -372,6 +407,7 @@ async fn c17_sequence(backend: Backend, seed: u64, i: u64, root: &Path) -> CaseO
         big_left: if i % 8 == 2 { 1 } else { 0 },
         big_items: 0,
         big_calls_with_repeated_ids: 0,
+        lookups_first: 0,
     };
     let segments = if matches!(backend, Backend::SqliteFile | Backend::Lmdb) { d.rng.gen_range(2..=4) } else { 1 };
     let total_steps = d.rng.gen_range(20..=60);
@@ -468,6 +504,7 @@ async fn c17_sequence(backend: Backend, seed: u64, i: u64, root: &Path) -> CaseO
     out.count("tombstones_written", d.tombstones_made);
     out.count("items_in_very_large_bulk_calls", d.big_items);
     out.count("large_bulk_calls_naming_an_id_twice", d.big_calls_with_repeated_ids);
+    out.count("keyspaces_first_touched_by_a_lookup_in_a_lifetime", d.lookups_first);
     out.count("reopens", reopens);
     out.counts.push((
         match backend {
